@@ -97,10 +97,17 @@ func (vc *VC) buildSliceIndex() *sliceIndex {
 			idx.bySym[s] = append(idx.bySym[s], len(vc.decls)+j)
 			continue
 		}
+		onlyGuards := true
 		for _, s := range idx.factSyms[j] {
-			if strings.HasPrefix(s, "g_b") || strings.HasPrefix(s, "g_exit") {
+			if !(strings.HasPrefix(s, "g_b") || strings.HasPrefix(s, "g_exit")) {
+				onlyGuards = false
+			}
+		}
+		for _, s := range idx.factSyms[j] {
+			if !onlyGuards && (strings.HasPrefix(s, "g_b") || strings.HasPrefix(s, "g_exit")) {
 				continue // block guards alone do not make a guarded assumption relevant
 			}
+			// a fact about guards only (a path that is cut: "guard => false") is relevant to those guards
 			idx.bySym[s] = append(idx.bySym[s], len(vc.decls)+j)
 		}
 	}
